@@ -25,9 +25,10 @@ PROPS = {
         "parts": [{"pkg": "livesim", "test": "TestVerifC01", "gen": True}],
         "clauses": ["C01.a", "C01.b", "C01.c", "C01.d", "C01.e", "C01.f", "C01.g"],
         "level": "model_checking",
-        "rule": "assets (bundled + generated layouts) x {video, stpp text/image, thumbnail} representations x {Number, Timeline-Time, Timeline-Number} x snr {unset,1,7} "
+        "rule": "assets (bundled + generated layouts incl. trex/tfhd mismatch, two video grids, own-duration thumbnails, tfhd+trun sample sizes) x {video, stpp text/image, thumbnail} representations x {Number, Timeline-Time, Timeline-Number} x snr {unset,1,7} "
                 "x start {0,900,1.7e9} x every segment index n in [0,3N+2], around the first 64-bit tfdt, and [K,K+2N+2] with K ~ 1.7e9 s; "
-                "each segment fetched at its availability instant + 1 ms and compared with an independent parse of the VoD files",
+                "each segment fetched at its availability instant + 1 ms and compared with an independent parse of the VoD files "
+                "(samples by payload hash; stpp documents byte for byte outside their timestamps)",
         "assumptions": ["time is explored through segment indices (the server is a pure function of URL and nowMS)",
                         "reference = own box walker over the VoD files; no livesim2 code in the oracle"],
     },
